@@ -37,6 +37,8 @@ pub enum TOp {
     /// compare the i-th edge of u with the j-th edge of v with `==`
     EdgeEq { u: usize, i: usize, v: usize, j: usize },
     EdgeReverse { u: usize, i: usize },
+    /// `cmp`/`partial_cmp`/`<`/`<=`/`max` of two edges and `sort()` of a node's edges
+    EdgeCmp { u: usize, i: usize, v: usize, j: usize },
     NodeCmp { u: usize, v: usize },
     /// `for e in &node`
     IterInto { u: usize },
@@ -200,6 +202,20 @@ fn exec<F: Flavour>(w: &mut World<F>, op: &TOp) -> Obs {
                 _ => Obs::Unit,
             }
         }
+        TOp::EdgeCmp { u, i, v, j } => {
+            let a = nth_edge::<F>(&w.nodes[*u], *i);
+            let b = nth_edge::<F>(&w.nodes[*v], *j);
+            let mut all = Vec::new();
+            F::for_out(&w.nodes[*u], &mut |x, y, e| {
+                all.push((x, y, e));
+                all.len() < 64
+            });
+            let sorted = F::edge_sort(&all);
+            match (a, b) {
+                (Some(a), Some(b)) => Obs::Text(format!("{} sorted={sorted:?}", F::edge_cmp(&a, &b))),
+                _ => Obs::Text(format!("sorted={sorted:?}")),
+            }
+        }
         TOp::EdgeReverse { u, i } => match nth_edge::<F>(&w.nodes[*u], *i) {
             Some(a) => Obs::Edges(vec![F::edge_reverse(&a)]),
             None => Obs::Unit,
@@ -324,7 +340,8 @@ impl Engine for Twin {
                 82..=85 => TOp::Scc,
                 86..=88 => TOp::Serialise { wire },
                 89..=91 => TOp::RoundTrip { wire },
-                92..=95 => TOp::EdgeEq { u: rng.below(n), i: rng.below(3), v: rng.below(n), j: rng.below(3) },
+                92..=93 => TOp::EdgeEq { u: rng.below(n), i: rng.below(3), v: rng.below(n), j: rng.below(3) },
+                94..=95 => TOp::EdgeCmp { u: rng.below(n), i: rng.below(3), v: rng.below(n), j: rng.below(3) },
                 96 => {
                     if rng.coin() {
                         TOp::EdgeReverse { u: rng.below(n), i: rng.below(3) }
@@ -432,7 +449,7 @@ impl Engine for Twin {
                     TOp::Node(op) => gen::remap_op(op, k).is_none(),
                     TOp::Insert { u } => *u == k,
                     TOp::Remove { k: x } | TOp::Get { k: x } | TOp::Index { k: x } | TOp::Contains { k: x } => *x == k,
-                    TOp::EdgeEq { u, v, .. } | TOp::NodeCmp { u, v } => *u == k || *v == k,
+                    TOp::EdgeEq { u, v, .. } | TOp::EdgeCmp { u, v, .. } | TOp::NodeCmp { u, v } => *u == k || *v == k,
                     TOp::EdgeReverse { u, .. } | TOp::IterInto { u } => *u == k,
                     TOp::PathInfo { root, spec } => *root == k || spec.target == Some(k),
                     _ => false,
